@@ -27,7 +27,7 @@ NEG = ['drop_sigs', 'id_attr_none', 'id_attr_bad', 'null_id', 'int_ids_as_str', 
 
 
 def budget(tier):
-	return {'quick': 1500, 'thorough': 30000}[tier]
+	return {'quick': 3000, 'thorough': 30000}[tier]
 
 
 def run_case(case, ctx):
